@@ -142,6 +142,8 @@ class Inliner(object):
     outer = getattr(self, '_cur_locals', None)
     self._cur_locals = _locals_of(node) | (outer or set())
     try:
+      if any(isinstance(x, (ast.Yield, ast.YieldFrom)) for x in walk_no_nested(node, include_self=False)):
+        node.body = self._delegations(node.body, fi, [fi.key], inlined, True)
       node.body = self._block(node.body, fi, [fi.key], inlined, 0)
     finally:
       self._cur_locals = outer if outer is not None else set()
@@ -159,6 +161,40 @@ class Inliner(object):
     if not v or ref[1] >= len(v):
       return None
     return v[ref[1]]
+
+  # ------------------------------------------------------------------ generator delegation
+  def _delegations(self, block, fn, stack, inlined, tail, depth=0):
+    """`for x in self.helper(...): yield x` / `yield from self.helper(...)` with a generator helper of the same module is
+    replaced by the helper's body.  A helper that contains `return` is spliced only where the delegation is the last
+    thing its caller does (then returning from the helper is returning from the caller)."""
+    block = _sink_delegations(block)
+    i = 0
+    while i < len(block):
+      s = block[i]
+      last = i == len(block) - 1
+      if isinstance(s, ast.If):
+        s.body = self._delegations(s.body, fn, stack, inlined, tail and last, depth)
+        s.orelse = self._delegations(s.orelse, fn, stack, inlined, tail and last, depth)
+      elif isinstance(s, (ast.With, ast.AsyncWith)):
+        s.body = self._delegations(s.body, fn, stack, inlined, False, depth)
+      elif isinstance(s, (ast.For, ast.While)) and _delegation_call(s) is None:
+        s.body = self._delegations(s.body, fn, stack, inlined, False, depth)
+      elif isinstance(s, ast.Try):
+        s.body = self._delegations(s.body, fn, stack, inlined, False, depth)
+      d = _delegation_call(s)
+      if d is not None and depth < self.max_depth:
+        callee = self._callee(d, fn)
+        if callee is not None and callee.key not in stack and self._simple(callee, d, generator=True):
+          has_ret = any(isinstance(x, ast.Return) for x in walk_no_nested(callee.node, include_self=False))
+          if not has_ret or (tail and last):
+            res = self._expand(d, callee, fn, stack, inlined, depth, 'generator')
+            if res is not None:
+              spliced = self._delegations(res[0], callee, stack + [callee.key], inlined, tail and last, depth + 1)
+              block[i:i + 1] = spliced
+              i += len(spliced)
+              continue
+      i += 1
+    return block
 
   # ------------------------------------------------------------------ statements
   def _block(self, stmts, fn, stack, inlined, depth):
@@ -287,7 +323,7 @@ class Inliner(object):
       return None
     return callee
 
-  def _simple(self, callee, call):
+  def _simple(self, callee, call, generator=False):
     n = callee.node
     if isinstance(n, ast.Lambda) or n.args.vararg or n.args.kwarg:
       return False
@@ -296,12 +332,15 @@ class Inliner(object):
     if any(isinstance(a, ast.Starred) for a in call.args) or any(kw.arg is None for kw in call.keywords):
       return False
     count = 0
+    has_yield = False
     for x in walk_no_nested(n, include_self=False):
-      if isinstance(x, (ast.Yield, ast.YieldFrom, ast.Global, ast.Nonlocal, ast.Await)):
+      if isinstance(x, (ast.Global, ast.Nonlocal, ast.Await)):
         return False
+      if isinstance(x, (ast.Yield, ast.YieldFrom)):
+        has_yield = True
       if isinstance(x, ast.stmt):
         count += 1
-    if count > MAX_BODY:
+    if count > MAX_BODY or has_yield != generator:
       return False
     # nested function definitions that close over helper locals would need renaming too: skip those helpers
     if any(isinstance(x, (ast.FunctionDef, ast.Lambda, ast.ClassDef)) for x in walk_no_nested(n, include_self=False)):
@@ -375,7 +414,10 @@ class Inliner(object):
     body = node.body
     if body and isinstance(body[0], ast.Expr) and isinstance(body[0].value, ast.Constant) and isinstance(body[0].value.value, str):
       body = body[1:]
-    if mode == 'return':
+    if mode == 'generator':
+      # for x in helper(...): yield x   (helper is a generator): its yields and returns are the caller's
+      new_body = list(body)
+    elif mode == 'return':
       # return helper(...): the helper's own return statements return from the caller just the same
       new_body = list(body)
       if not _always_returns(new_body):
@@ -494,6 +536,69 @@ def _subst_flags(block):
     ast.fix_missing_locations(u)
     changed = True
   return changed
+
+
+def _delegation_call(s):
+  """the generator call of `for x in <call>: yield x` or `yield from <call>`; None for any other statement."""
+  if isinstance(s, ast.Expr) and isinstance(s.value, ast.YieldFrom) and isinstance(s.value.value, ast.Call):
+    return s.value.value
+  if isinstance(s, ast.For) and not s.orelse and isinstance(s.target, ast.Name) and isinstance(s.iter, ast.Call) and \
+     len(s.body) == 1 and isinstance(s.body[0], ast.Expr) and isinstance(s.body[0].value, ast.Yield) and \
+     isinstance(s.body[0].value.value, ast.Name) and s.body[0].value.value.id == s.target.id:
+    return s.iter
+  return None
+
+
+def _sink_delegations(block):
+  """x = gen(...)                      for t in gen(...): yield t
+     for t in x: yield t        ==>
+  and the same through an if/else whose branches end by binding x to a generator call (a generator call runs nothing
+  until it is iterated, so moving the loop next to the call changes no order of evaluation)."""
+  out = list(block)
+  i = 0
+  while i < len(out) - 1:
+    d, u = out[i], out[i + 1]
+    if isinstance(u, ast.For) and isinstance(u.iter, ast.Name) and not u.orelse and isinstance(u.target, ast.Name) and \
+       len(u.body) == 1 and isinstance(u.body[0], ast.Expr) and isinstance(u.body[0].value, ast.Yield) and \
+       isinstance(u.body[0].value.value, ast.Name) and u.body[0].value.value.id == u.target.id:
+      x = u.iter.id
+
+      def binds(st):
+        return isinstance(st, ast.Assign) and len(st.targets) == 1 and isinstance(st.targets[0], ast.Name) and \
+          st.targets[0].id == x and isinstance(st.value, ast.Call)
+
+      def loop_over(call):
+        lp = _clone(u)
+        lp.iter = call
+        return lp
+      uses_elsewhere = sum(1 for st in out for y in ast.walk(st) if isinstance(y, ast.Name) and y.id == x and isinstance(y.ctx, ast.Load))
+      if uses_elsewhere == 1 and binds(d):
+        out[i:i + 2] = [loop_over(d.value)]
+        continue
+      if uses_elsewhere == 1 and isinstance(d, ast.If) and d.orelse:
+        def sink(br):
+          """branch statements with the trailing binding replaced by the loop, or None"""
+          if not br:
+            return None
+          lastst = br[-1]
+          if binds(lastst):
+            return br[:-1] + [loop_over(lastst.value)]
+          if isinstance(lastst, ast.If) and lastst.orelse:
+            b, e = sink(lastst.body), sink(lastst.orelse)
+            if b is None or e is None:
+              return None
+            new = copy.copy(lastst)
+            new.body, new.orelse = b, e
+            return br[:-1] + [new]
+          return None
+        b, e = sink(d.body), sink(d.orelse)
+        if b is not None and e is not None:
+          new = copy.copy(d)
+          new.body, new.orelse = b, e
+          out[i:i + 2] = [new]
+          continue
+    i += 1
+  return out
 
 
 def _first_evaluated_name(test):
